@@ -15,7 +15,7 @@ VIOLATION.  Flags:
 """
 from . import x690 as M
 
-ALL = ('K1', 'K2', 'K3', 'K4', 'K11')
+ALL = ('K1', 'K2', 'K4', 'K11')
 NO_INDEF = ('BOOL', 'INT', 'ENUM', 'NULL', 'OID', 'REAL')
 
 
@@ -85,15 +85,20 @@ def all_optional_record(T):
     return b[0] in ('SEQ', 'SET') and all(f[2] != 'R' for f in b[1])
 
 
-def py_data_equals(ft, cv, dv, native):
-    """does plain Python data for cv compare equal (==) to the default value OBJECT holding dv?  NULL, records and
-    CHOICEs never do; lists compare member by member in stored order; the native encoder's bytes for UTF8String and
-    dotted text for OBJECT IDENTIFIER do not"""
+def py_data_equals(ft, cv, dv, native, member=False):
+    """is plain Python data for cv recognised as equal to the default value OBJECT holding dv?  A scalar is turned
+    into a value object first (so it is); records and CHOICEs never are; lists are compared member by member with
+    == in stored order, where NULL members, (m, b, e) tuples and the native encoder's bytes / dotted text for
+    UTF8String / OBJECT IDENTIFIER do not compare equal"""
     b = M.base_of(ft)
-    if b[0] in ('NULL', 'SEQ', 'SET', 'CHOICE'):
+    if b[0] in ('SEQ', 'SET', 'CHOICE'):
         return False
     if b[0] in ('SEQOF', 'SETOF'):
-        return len(cv) == len(dv) and all(py_data_equals(b[1], x, y, native) for x, y in zip(cv, dv))
+        return len(cv) == len(dv) and all(py_data_equals(b[1], x, y, native, True) for x, y in zip(cv, dv))
+    if not member:
+        return M.values_equal(ft, cv, dv)
+    if b[0] == 'NULL':
+        return False
     if native and (b[0] == 'OID' or b == ('STR', 'UTF8String')):
         return False
     if b[0] == 'REAL' and isinstance(cv, tuple):
